@@ -9,6 +9,8 @@ wt = '/tmp/wt/_try'
 if not os.path.isdir(wt):
     subprocess.check_call(['git', '-C', '/repo', 'worktree', 'add', '-q', '--detach', wt, 'HEAD'])
 subprocess.check_call(['git', '-C', wt, 'reset', '-q', '--hard'])
+
+subprocess.check_call(['git', '-C', wt, 'clean', '-fdq'])
 subprocess.check_call(['git', '-C', wt, 'checkout', '-q', '--detach', subprocess.check_output(['git', '-C', '/repo', 'rev-parse', 'HEAD']).decode().strip()])
 os.environ['SCMO_REPO'] = wt
 from sa.run import check
@@ -26,3 +28,5 @@ for p in patches:
                 print('   ', l[:300])
     finally:
         subprocess.check_call(['git', '-C', wt, 'reset', '-q', '--hard'])
+
+        subprocess.check_call(['git', '-C', wt, 'clean', '-fdq'])
